@@ -308,6 +308,39 @@ impl Check for C06 {
                 Ok(Ok(())) => {}
             }
         }
+        // a descriptor longer than what the file holds, with the section header inflated to match: nothing may come
+        // back as success with fewer bytes than the descriptor states
+        if !case.perturb.is_empty() && !tr.blobs.is_empty() {
+            if let Ok(mut log) = e57ref::pages::unpage(&bytes) {
+                let (which, delta) = case.perturb[0];
+                let (off, len) = tr.blobs[which as usize % tr.blobs.len()];
+                if let Some(l) = e57ref::pages::phys_to_log(off) {
+                    let l = l as usize;
+                    if l + 16 <= log.len() {
+                        log[l + 8..l + 16].copy_from_slice(&(1u64 << 40).to_le_bytes());
+                        let inflated = e57ref::pages::page(&log);
+                        let want_len = (log.len() as u64).saturating_sub(l as u64) + 1 + delta.unsigned_abs() as u64;
+                        v.nt("descriptor_and_section_header_longer_than_the_file");
+                        let res = guard(|| {
+                            let mut rd = E57Reader::new(MemDev::with_data(inflated.clone())).map_err(|e| e.to_string())?;
+                            let mut sink = gen::LimitSink::new(usize::MAX, 0);
+                            rd.blob(&Blob::new(off, want_len), &mut sink).map(|n| (n, sink.got.len() as u64)).map_err(|e| e.to_string())
+                        });
+                        match res {
+                            Err(p) => {
+                                v.fail(format!("blob() panicked for a descriptor beyond the end of the file: {p}"));
+                                return v;
+                            }
+                            Ok(Ok((n, got))) if n != want_len || got != want_len => {
+                                v.fail(format!("descriptor of {want_len} bytes on a blob of {len} bytes whose section header claims 2^40 bytes: blob() reports Ok({n}) and hands over {got} bytes - fewer than the descriptor's length, silently"));
+                                return v;
+                            }
+                            _ => {}
+                        }
+                    }
+                }
+            }
+        }
         // perturbed descriptors
         if !case.perturb.is_empty() && !tr.blobs.is_empty() {
             let log = e57ref::pages::unpage(&bytes).unwrap_or_default();
